@@ -85,6 +85,10 @@ func (e EvmEngine) GenConfig(rng *rand.Rand, prop string, tier string) RunConfig
 		rc.Steps = 40 + rng.IntN(80)
 	}
 	rc.Weights = map[string]int{}
+	if prop == "C10" {
+		rc.World.SlashWindow = int64(10 + rng.IntN(20)) // short window: a validator that misses blocks is slashed within a run
+		rc.World.MinSignedPct = 50
+	}
 	if prop == "C11" {
 		rc.World.SlashWindow = int64(10 + rng.IntN(30))
 		rc.World.MinSignedPct = 50
